@@ -36,7 +36,7 @@ CLAIMED = {
             "reference model's output never changes; the real function is run on the same spellings and judged by the trace spec.",
             "Trusted: TLC; the table of what is irrelevant (spec/data/normdata.json, transcribed from the documentation); rewrite guards."),
     "C05": ("DESIGN.md section 4 / C05",
-            "TLA+ contract OnlyDeletes (denotations of input and output, irrelevance tables) model checked against the reference normalize model for every option vector; TLC-enumerated (url, option vector) space replayed into normalize_url; results judged by TLC trace spec",
+            "TLA+ contract OnlyDeletes (denotations of input and output, irrelevance tables) and frame clause FrameFailing (a single flipped option changes only the parts it owns) model checked against the reference normalize model for every option vector; TLC-enumerated (url, option vector) space replayed into normalize_url; results judged by TLC trace spec",
             "TLC checks that the contract (host: only whole irrelevant labels / leading amp- removed; port kept; path: at most AMP marker, index page, "
             "trailing slash removed; query: only irrelevant items removed, order kept unless sorted; options off preserve scheme/userinfo/fragment; "
             "unparseable input returned unchanged, no exception) is satisfied by the reference model on all 1536 option vectors x 42 URLs, and "
